@@ -91,8 +91,14 @@ T = {
         change="Float._random_dna for scale log/rlog computes exp(uniform(log min, log max)) unclamped: a draw at a range end lies one ulp outside",
         needs='log/rlog scale with min == max on a double that does not round-trip through exp(log(x)), or an RNG stub returning the extremes',
         first='missed', cross=''),
-    'C12-r3m1': dict(change='(see notes.md)', needs='(see notes.md)', first='', cross=''),
-    'C12-r3m2': dict(change='(see notes.md)', needs='(see notes.md)', first='', cross=''),
+    'C12-r3m1': dict(
+        change='DNASpec.first_dna() memoised per spec object, ignoring attach_spec: the internal first_dna(attach_spec=False) calls of iteration fill the caches of sub-spaces with unbound DNAs',
+        needs='iterate an enclosing space (or call first_dna(attach_spec=False)), then call first_dna() on a sub-space',
+        first='missed', cross=''),
+    'C12-r3m2': dict(
+        change='CustomDecisionPoint.use_symbolic_comparison = True: equal custom decision points at different places collapse into one key of the dna_spec-keyed dictionary view',
+        needs='a custom decision point duplicated in the space, both copies active, key type dna_spec',
+        first='DETECTED (to_dict-content:to_dict[kt=dna_spec,...])', cross=''),
     'C13-r3m1': dict(
         change='Choices._next_dna returns None instead of carrying to an earlier choice position when no completion exists',
         needs='a manyof that is distinct AND sorted with at least 3 choices and more candidates than choices',
